@@ -2,6 +2,7 @@ package main
 
 import (
 	"bytes"
+	"sort"
 	"encoding/hex"
 	"fmt"
 	"reflect"
@@ -9,6 +10,7 @@ import (
 	"strings"
 
 	gpb "github.com/openconfig/gnmi/proto/gnmi"
+	"github.com/openconfig/goyang/pkg/yang"
 	"github.com/openconfig/ygot/verifharness/gen"
 	"github.com/openconfig/ygot/verifharness/model"
 	"github.com/openconfig/ygot/ygot"
@@ -43,7 +45,7 @@ func c03Header(seed uint64, tier string) *Case {
 	tp := gen.SwarmParams(&r)
 	tp.NoNestedOrdered = true // ygot documents nested ordered lists as unsupported by its gNMI renderer
 	tp.Unkeyed = false        // Diff documents keyless lists as unsupported
-	return &Case{Prop: "C03", Pkg: p.Name, Seed: seed, Faults: false, MapMode: int(simrt.MapRandom), MapSeed: simrt.Mix(seed, 3), TreeP: tp, NOps: n}
+	return &Case{Prop: "C03", Pkg: p.Name, Seed: seed, Faults: seed%2 == 1, MapMode: int(simrt.MapRandom), MapSeed: simrt.Mix(seed, 3), TreeP: tp, NOps: n}
 }
 
 func c03Exec(c *Case, generate bool) (*Violation, *execStats) {
@@ -72,6 +74,12 @@ func c03Exec(c *Case, generate bool) (*Violation, *execStats) {
 			}
 			if ro.Intn(3) == 0 {
 				op.A["share"] = "1"
+			}
+			if c.Faults && ro.Intn(4) == 0 {
+				op.A["badfirst"] = "1"
+			}
+			if ro.Intn(3) == 0 {
+				op.A["fanout"] = "1"
 			}
 			c.Ops = append(c.Ops, op)
 		} else {
@@ -275,6 +283,26 @@ func c03StepView(s *treeState, op Op, cur ygot.GoStruct, replica *ygot.GoStruct,
 	case "ignoreadd":
 		opts = append(opts, &ygot.IgnoreAdditions{})
 	}
+	if op.arg("badfirst") == "1" {
+		// a failing call in front of the real one: Diff against a version that is not
+		// schema-conforming (a list entry whose key leaf is unset). What it returns is not this
+		// property's business; what the NEXT call returns is.
+		bad := model.Clone(next).(ygot.GoStruct)
+		if breakOneKeyLeaf(reflect.ValueOf(bad), s.sch) {
+			var berr error
+			callSUT(func() {
+				if mode == "atomic" {
+					_, berr = ygot.DiffWithAtomic(cur, bad, opts...)
+				} else {
+					_, berr = ygot.Diff(cur, bad, opts...)
+				}
+			})
+			s.st.Faults["diff_of_invalid_version_first"]++
+			if berr != nil {
+				s.st.Faults["failing_diff"]++
+			}
+		}
+	}
 	var notifs []*gpb.Notification
 	var err error
 	if p := callSUT(func() {
@@ -293,6 +321,12 @@ func c03StepView(s *treeState, op Op, cur ygot.GoStruct, replica *ygot.GoStruct,
 	if err != nil {
 		return nil, violation("C03", "diff-error", sigp+"diff-error", "Diff of two schema-conforming trees failed: %v", err)
 	}
+	// the notifications of earlier steps are still in the harness's hands: this call must not
+	// have changed them
+	if ch := s.heldChanged(); ch != "" {
+		return nil, violation("C03", "earlier-result-changed", "C03:"+mode+":earlier-result-changed", "after the next Diff call, %s", ch)
+	}
+
 	// inputs are untouched (otherwise every later step of the history is meaningless)
 	if model.Walk(cur, s.sch, "").Fingerprint() != fpA || model.Walk(next, s.sch, "").Fingerprint() != fpB {
 		s.st.Probes["diff_mutated_an_input"]++
@@ -357,6 +391,10 @@ func c03StepView(s *treeState, op Op, cur ygot.GoStruct, replica *ygot.GoStruct,
 		}
 	}
 	// completeness: applying the notifications to the replica gives the modified tree
+	var twin ygot.GoStruct
+	if op.arg("fanout") == "1" {
+		twin = model.Clone(*replica).(ygot.GoStruct) // a second replica that gets the same notifications afterwards
+	}
 	schema := &ytypes.Schema{Root: *replica, SchemaTree: s.p.Schema().SchemaTree, Unmarshal: s.p.Unmarshal}
 	if p := callSUT(func() { err = ytypes.UnmarshalNotifications(schema, notifs, uopts...) }); p != nil {
 		return nil, violation("C03", "panic", "C03:panic:apply:"+mode, "UnmarshalNotifications of Diff's output panicked: %v\n%s", p.v, trimStack(p.stack))
@@ -387,6 +425,23 @@ func c03StepView(s *treeState, op Op, cur ygot.GoStruct, replica *ygot.GoStruct,
 	}
 	if d := model.DiffFlat(want, flat(mr), 6); len(d) > 0 {
 		return nil, violation("C03", "incomplete", sigp+"replica-differs", "after applying Diff's %d deletes and %d updates (%d notifications) the copy differs from the modified tree: %v", nd, nu, len(notifs), d)
+	}
+	if twin != nil {
+		// the same notifications delivered to a second replica (fan-out) must take it to the same
+		// state: applying them once must not have used them up or rewritten them
+		schema2 := &ytypes.Schema{Root: twin, SchemaTree: s.p.Schema().SchemaTree, Unmarshal: s.p.Unmarshal}
+		var err2 error
+		if p := callSUT(func() { err2 = ytypes.UnmarshalNotifications(schema2, notifs, uopts...) }); p != nil {
+			return nil, violation("C03", "panic", "C03:panic:apply:"+mode, "the second delivery of Diff's output panicked: %v\n%s", p.v, trimStack(p.stack))
+		}
+		if err2 != nil {
+			return nil, violation("C03", "apply-error", sigp+"second-delivery-error", "the notifications applied to one replica cannot be applied to a second one: %v", err2)
+		}
+		mt := model.Walk(schema2.Root.(ygot.GoStruct), s.sch, "")
+		if d := model.DiffFlat(flat(mr), flat(mt), 6); len(d) > 0 {
+			return nil, violation("C03", "incomplete", sigp+"second-delivery-differs", "a second replica given the same %d notifications ends up different from the first: %v", len(notifs), d)
+		}
+		s.st.Probes["notifications_delivered_twice"]++
 	}
 	if mode == "atomic" && opt != "ignoreadd" {
 		for lp := range mb.Ordered {
@@ -433,7 +488,50 @@ func c03StepView(s *treeState, op Op, cur ygot.GoStruct, replica *ygot.GoStruct,
 		}
 	}
 	s.st.logf("step edit=%s mode=%s opt=%s: %d deletes %d updates %d notifs, leaves %d -> %d", op.arg("edit"), mode, opt, nd, nu, len(notifs), len(fa), len(fb))
+	// held from here on (after they have been applied: what the application itself does to
+	// its input is not this property's business)
+	for _, n := range notifs {
+		s.hold("a notification Diff", n)
+	}
 	return next, nil
+}
+
+// breakOneKeyLeaf unsets one key leaf of the first keyed-list entry it finds (depth first, in a
+// deterministic order), which makes the tree non-conforming.
+func breakOneKeyLeaf(v reflect.Value, sch *yang.Entry) bool {
+	if v.Kind() != reflect.Ptr || v.IsNil() || v.Elem().Kind() != reflect.Struct {
+		return false
+	}
+	s := v.Elem()
+	t := s.Type()
+	for i := 0; i < t.NumField(); i++ {
+		sf := t.Field(i)
+		f := s.Field(i)
+		csch := model.Child(sch, strings.Split(sf.Tag.Get("path"), "|")[0])
+		switch model.Classify(sf) {
+		case model.FContainer:
+			if breakOneKeyLeaf(f, csch) {
+				return true
+			}
+		case model.FList:
+			if f.IsNil() || f.Len() == 0 || csch == nil {
+				continue
+			}
+			ks := f.MapKeys()
+			sort.Slice(ks, func(a, b int) bool { return model.Render(ks[a]) < model.Render(ks[b]) })
+			e := f.MapIndex(ks[0])
+			for _, kn := range model.KeyNames(csch) {
+				if fi, ok := model.KeyField(e.Elem().Type(), kn); ok {
+					kf := e.Elem().Field(fi)
+					if kf.Kind() == reflect.Ptr || kf.Kind() == reflect.Interface {
+						kf.Set(reflect.Zero(kf.Type()))
+						return true
+					}
+				}
+			}
+		}
+	}
+	return false
 }
 
 // orderedSubtree renders everything the model knows below an ordered list (order and leaves).
